@@ -25,6 +25,8 @@ def r_goal(g):
         return "((" + ", ".join(r_goal(x) for x in g["l"]) + ") ; (" + ", ".join(r_goal(x) for x in g["r"]) + "))"
     if k == "unify":
         return "%s = %s" % (T.render(g["x"]), T.render(g["y"]))
+    if k == "all":
+        return "all(%s, (%s), %s)" % (T.render(g["tmpl"]), ", ".join(r_goal(x) for x in g["g"]), T.render(g["res"]))
     if k == "findall":
         return "findall(%s, (%s), %s)" % (T.render(g["tmpl"]), ", ".join(r_goal(x) for x in g["g"]), T.render(g["res"]))
     raise ValueError(k)
